@@ -19,7 +19,26 @@ pub fn set_validate_tx(on: bool) {
     VALIDATE_TX.with(|v| v.set(on));
     TX_VIOLATIONS.with(|v| v.borrow_mut().clear());
     TX_CHAINS.with(|v| v.borrow_mut().clear());
+    TX_DEFERRED.with(|v| v.borrow_mut().clear());
 }
+thread_local! {
+    static TX_DEFERRED: std::cell::RefCell<Vec<(crate::indep::Ip, crate::indep::validate::Violation)>> = const { std::cell::RefCell::new(Vec::new()) };
+}
+/// Confirm or drop the `source-not-own` verdicts of the poll that just ended.
+fn resolve_deferred(now_own: &[crate::indep::Ip]) {
+    let d = TX_DEFERRED.with(|d| std::mem::take(&mut *d.borrow_mut()));
+    for (a, viol) in d {
+        if !now_own.contains(&a) {
+            TX_VIOLATIONS.with(|v| {
+                let mut v = v.borrow_mut();
+                if v.len() < 16 {
+                    v.push(viol);
+                }
+            });
+        }
+    }
+}
+
 /// Content validator for IEEE 802.15.4 frames (6LoWPAN reassembly and decompression need
 /// state and the independent codec of the C20 check, so the C10 check registers it):
 /// Ok(Some) = a whole datagram was reconstructed and is valid, Ok(None) = no verdict yet.
@@ -161,13 +180,25 @@ impl<'a> phy::TxToken for SimTx<'a> {
             }
             match res {
                 Ok(s) => TX_CHAINS.with(|c| *c.borrow_mut().entry(s.chain).or_insert(0) += 1),
-                Err((k, m)) => TX_VIOLATIONS.with(|v| {
-                    let mut v = v.borrow_mut();
-                    if v.len() < 16 {
-                        let hexs: String = buf.iter().take(96).map(|b| format!("{:02x}", b)).collect();
-                        v.push((k, format!("{} [frame {} octets: {}]", m, buf.len(), hexs)));
+                Err((k, m)) => {
+                    let hexs: String = buf.iter().take(96).map(|b| format!("{:02x}", b)).collect();
+                    let viol = (k, format!("{} [frame {} octets: {}]", m, buf.len(), hexs));
+                    match crate::indep::validate::take_not_own_addr() {
+                        // judged when the poll is over (Node::poll), against the addresses held then
+                        Some(a) if viol.0.ends_with("source-not-own") => TX_DEFERRED.with(|d| {
+                            let mut d = d.borrow_mut();
+                            if d.len() < 64 {
+                                d.push((a, viol));
+                            }
+                        }),
+                        _ => TX_VIOLATIONS.with(|v| {
+                            let mut v = v.borrow_mut();
+                            if v.len() < 16 {
+                                v.push(viol);
+                            }
+                        }),
                     }
-                }),
+                }
             }
         }
         self.q.push(buf);
@@ -294,6 +325,10 @@ impl Node {
         self.sync_validator();
         self.dev.begin_poll(budget);
         let _ = self.iface.poll(now, &mut self.dev, &mut self.sockets);
+        if self.dev.vctx.is_some() {
+            let now_own: Vec<crate::indep::Ip> = self.iface.ip_addrs().iter().map(|c| crate::indep::Ip::from_smol(c.address())).collect();
+            resolve_deferred(&now_own);
+        }
         self.dev.take_tx()
     }
     pub fn poll_at(&mut self, now: Instant) -> Option<Instant> {
